@@ -49,6 +49,11 @@ class ExecutionPlanner:
             lt = stack.pop()
 
             if lt.state == LoweringState.FIRST_VISIT:
+                if lt.task.identifier in visited:
+                    # This task was reached through another path (and processed)
+                    # after this entry was pushed onto the stack.
+                    continue
+
                 # First visit to this task.
                 visited[lt.task.identifier] = lt
 
@@ -151,7 +156,8 @@ class ExecutionPlanner:
 
                 # Hook the new dependency into the graph.
                 for dep in lt.deps:
-                    for dep_op in dep.output_ops:
+                    # Always use the canonical (visited) entry for the dependency.
+                    for dep_op in visited[dep.task.identifier].output_ops:
                         new_op.add_exe_dep(dep_op)
                         dep_op.add_dep_of(new_op)
                 lt.output_ops.append(new_op)
